@@ -160,6 +160,16 @@ def obligations_for(prop):
         return json.load(f).get(prop, [])
 
 
+def extra_obligations(prop):
+    """theorems that belong to a property but live in a module that *imports* the property file (compositions of two properties),
+    listed by hand in lean/obligations_extra.json: {"C07": {"Cutadapt.Proofs.KmerCompose": ["Cutadapt.C07.…"]}}"""
+    p = os.path.join(LEAN, "obligations_extra.json")
+    if not os.path.exists(p):
+        return {}
+    with open(p) as f:
+        return json.load(f).get(prop, {})
+
+
 def theorems_in(path):
     """Names of theorems declared in a property file (namespace-qualified)."""
     names, ns = [], []
@@ -204,7 +214,7 @@ def strip_comments(txt):
 
 def import_cone(prop):
     """files under lean/Cutadapt that the property module imports, transitively"""
-    seen, todo = set(), [f"Cutadapt.Properties.{prop}"]
+    seen, todo = set(), [f"Cutadapt.Properties.{prop}"] + list(extra_obligations(prop))
     while todo:
         m = todo.pop()
         if m in seen:
@@ -238,14 +248,15 @@ def lean_proofs(ctx, clean=False):
     """Build the property module and audit its theorems.
     Returns dict(obligations=[...], discharged=[...], broken=[...], log=str)."""
     prop = ctx.prop
-    obl = obligations_for(prop)
+    extra = extra_obligations(prop)
+    obl = obligations_for(prop) + [t for ts in extra.values() for t in ts]
     res = dict(obligations=obl, discharged=[], broken=[], log="", forbidden=[], unlisted=[], axioms={})
     with LeanLock():
         if clean:
             for sub in ("Properties", "Proofs", "Audit"):
                 shutil.rmtree(os.path.join(LEAN, ".lake", "build", "lib", "lean", "Cutadapt", sub), ignore_errors=True)
         lake(["build", "driver"])
-        rc, out = lake(["build", f"Cutadapt.Properties.{prop}"])
+        rc, out = lake(["build", f"Cutadapt.Properties.{prop}"] + list(extra))
         res["log"] = out[-6000:]
         build_ok = rc == 0
         res["build_ok"] = build_ok
@@ -253,8 +264,12 @@ def lean_proofs(ctx, clean=False):
         propfile = os.path.join(LEAN, "Cutadapt", "Properties", f"{prop}.lean")
         declared = theorems_in(propfile) if os.path.exists(propfile) else []
         res["unlisted"] = [t for t in declared if t not in obl]
+        for mod in extra:   # every theorem of an extra module must be listed as well
+            mp = os.path.join(LEAN, *mod.split(".")) + ".lean"
+            if os.path.exists(mp):
+                res["unlisted"] += [t for t in theorems_in(mp) if t not in obl]
         if build_ok:
-            audit = "import Cutadapt.Properties.%s\n" % prop + "".join(f"#print axioms {t}\n" for t in obl)
+            audit = "import Cutadapt.Properties.%s\n" % prop + "".join(f"import {m}\n" for m in extra) + "".join(f"#print axioms {t}\n" for t in obl)
             ap = os.path.join(LEAN, "Cutadapt", "Audit", f"{prop}.lean")
             write_if_changed(ap, audit)
             r = subprocess.run(["lake", "env", "lean", ap], cwd=LEAN, capture_output=True, text=True, timeout=1800)
